@@ -210,6 +210,18 @@ func (c *LocalActionsCache) writeCache(key string, val *ActionMetadata) {
 	c.mu.Unlock()
 }
 
+// writeCacheIfAbsent stores the value unless some value was already stored for the key by another
+// goroutine. It returns the value in the cache and true when this call stored the value.
+func (c *LocalActionsCache) writeCacheIfAbsent(key string, val *ActionMetadata) (*ActionMetadata, bool) {
+	c.mu.Lock()
+	defer c.mu.Unlock()
+	if m, ok := c.cache[key]; ok {
+		return m, false
+	}
+	c.cache[key] = val
+	return val, true
+}
+
 // FindMetadata finds metadata for given spec. The spec should indicate for local action hence it
 // should start with "./". The first return value can be nil even if error did not occur.
 // LocalActionCache caches that the action was not found. At first search, it returns an error that
@@ -240,7 +252,9 @@ func (c *LocalActionsCache) FindMetadata(spec string) (*ActionMetadata, bool, er
 
 	var meta ActionMetadata
 	if err := yaml.Unmarshal(b, &meta); err != nil {
-		c.writeCache(spec, nil) // Remember action was invalid
+		if m, ok := c.writeCacheIfAbsent(spec, nil); !ok { // Remember action was invalid
+			return m, true, nil // Another goroutine already found (and reported) it
+		}
 		msg := strings.ReplaceAll(err.Error(), "\n", " ")
 		return nil, false, fmt.Errorf("could not parse action metadata in %q: %s", dir, msg)
 	}
@@ -248,7 +262,9 @@ func (c *LocalActionsCache) FindMetadata(spec string) (*ActionMetadata, bool, er
 	meta.dir = dir
 
 	c.debug("New metadata parsed from action %s: %v", dir, &meta)
-	c.writeCache(spec, &meta)
+	if m, ok := c.writeCacheIfAbsent(spec, &meta); !ok {
+		return m, true, nil // Another goroutine already found (and checked) it
+	}
 	return &meta, false, nil
 }
 
